@@ -197,10 +197,12 @@ def uc7_long_case(draw):
 
 
 @st.composite
-def folder_case(draw):
+def folder_case(draw, rot: int = 0):
     from ..envdrive import SCHEDULE_FOLDERS
 
-    p = draw(st.sampled_from([f for f in SCHEDULE_FOLDERS if "uc7" not in f]))
+    fs = [f for f in SCHEDULE_FOLDERS if "uc7" not in f]
+    fs = fs[rot % len(fs):] + fs[:rot % len(fs)]
+    p = draw(st.sampled_from(fs))
     s = draw(st.integers(0, 1000))
     ops = []
     for _ in range(draw(st.integers(2, 5))):  # several episodes: the schedule advances with every reset
@@ -214,15 +216,16 @@ def collect(strategy, n: int, seed: int) -> List[Dict]:
 
     out: List[Dict] = []
 
+    # Hypothesis starts with the simplest example of a strategy (first element of every sampled_from, shortest lists):
+    # with small n that would be most of the sample, so one extra example is drawn and the first one dropped
     @hseed(seed)
-    @settings(max_examples=n, database=None, deadline=None, phases=[Phase.generate], suppress_health_check=list(HealthCheck))
+    @settings(max_examples=n + 1, database=None, deadline=None, phases=[Phase.generate], suppress_health_check=list(HealthCheck))
     @given(strategy)
     def _t(case):
-        if len(out) < n:
-            out.append(case)
+        out.append(case)
 
     _t()
-    return out
+    return out[1:n + 1] if len(out) > n else out[:n]
 
 
 def worker(ctx: Ctx):
@@ -234,7 +237,7 @@ def worker(ctx: Ctx):
         paths = [p for p in paths if "uc7_config_tap003" not in p and "nmap_network_service_recon" not in p]
     n_ship, n_gen = (4, 3) if q else (60, 60)
     cases = collect(shipped_case(paths), n_ship, ctx.wseed * 10) + collect(gen_case(), n_gen, ctx.wseed * 10 + 1)
-    cases += collect(folder_case(), 1 if q else 16, ctx.wseed * 10 + 2)
+    cases += collect(folder_case(rot=ctx.idx + ctx.seed), 1 if q else 16, ctx.wseed * 10 + 2)
     if ctx.idx == 0 or not q:
         cases += collect(uc7_long_case(), 1 if q else 6, ctx.wseed * 10 + 3)
     chunk = 12
